@@ -162,10 +162,10 @@ class Hang(Exception):
 
 
 class EOFWatch(object):
-    """Proxy for listing._file.  A read that returns nothing (end of file) increments a counter that
-    any successful read or seek to a position before the end resets... no: only a successful read
-    resets it, because the looping code seeks as well.  More than `limit` consecutive empty reads
-    refute termination deterministically (legitimate code reads at EOF a handful of times)."""
+    """Proxy for listing._file.  Every read that returns nothing (end of file) increments a counter;
+    only a read that returns data resets it (seeks do not, the looping code seeks as well).  More than
+    `limit` consecutive empty reads refute termination deterministically, without a clock: legitimate
+    code reads at end of file a handful of times, the looping code does nothing else."""
 
     def __init__(self, f, limit=1000):
         self._f = f
